@@ -577,13 +577,17 @@ fn runtime() -> tokio::runtime::Runtime {
 }
 
 /// Runs a stored case (re-running it while the timing was off).
+/// Report level (the reporting side of ProtocolSet under back-pressure): the case as run and its trace.
+fn run_report_case(rt: &tokio::runtime::Runtime, c: &[u64]) -> (Vec<u64>, Vec<u64>) {
+    match crate::c08_report::parse(c) {
+        Some((n, cap, ops)) => crate::c08_report::run(rt, n, cap, &ops),
+        None => (c.to_vec(), vec![0]),
+    }
+}
+
 fn run_stored(rt: &tokio::runtime::Runtime, c: &[u64]) -> Vec<u64> {
     if c.first() == Some(&2) {
-        // report level (the reporting side of ProtocolSet under back-pressure)
-        return match crate::c08_report::parse(c) {
-            Some((n, cap, ops)) => crate::c08_report::run(rt, n, cap, &ops),
-            None => vec![0],
-        };
+        return run_report_case(rt, c).1;
     }
     let Some((ka, t, n0, ops)) = parse_case(c) else { return vec![0] };
     let mut last = vec![0];
@@ -629,6 +633,12 @@ pub fn main(args: &Args, c09: bool) {
         stored = read_cases(Path::new(d));
     }
     for c in &stored {
+        if c.first() == Some(&2) {
+            // stored report-level cases are re-masked for this run's protocol table order
+            let (c2, t) = catch_unwind(AssertUnwindSafe(|| run_report_case(&rt, c))).unwrap_or((c.clone(), vec![PANIC_MARK]));
+            out.emit(&c2, &t);
+            continue;
+        }
         let t = catch_unwind(AssertUnwindSafe(|| run_stored(&rt, c))).unwrap_or(vec![PANIC_MARK]);
         out.emit(c, &t);
     }
@@ -649,7 +659,7 @@ pub fn main(args: &Args, c09: bool) {
         for _ in 0..(ncases / 3) {
             let mut r = rr.fork();
             let c = crate::c08_report::gen(&mut r, thorough);
-            let t = catch_unwind(AssertUnwindSafe(|| run_stored(&rt, &c))).unwrap_or(vec![PANIC_MARK]);
+            let (c, t) = catch_unwind(AssertUnwindSafe(|| run_report_case(&rt, &c))).unwrap_or((c.clone(), vec![PANIC_MARK]));
             out.emit(&c, &t);
         }
     }
